@@ -18,6 +18,8 @@ import (
 	"github.com/Nextdoor/pg-bifrost.git/transport/progress"
 	kbatch "github.com/Nextdoor/pg-bifrost.git/transport/transporters/kinesis/batch"
 	kutils "github.com/Nextdoor/pg-bifrost.git/transport/transporters/kinesis/utils"
+	"github.com/Nextdoor/pg-bifrost.git/transport/transporters/kafka"
+	"github.com/Shopify/sarama"
 	"github.com/aws/aws-sdk-go/service/kinesis"
 	"github.com/cevaris/ordered_map"
 )
@@ -69,6 +71,11 @@ func (m Msg) gallina() string {
 type Kind struct {
 	Generic int    `json:"generic,omitempty"` // max size when > 0
 	Kinesis string `json:"kinesis,omitempty"` // "walstart" | "batch"
+	// Kafka: the REAL Kafka batch factory with this kafka-partition-method, kafka-batch-size = Generic and a
+	// byte limit no generated record reaches.  Seen from the batcher such a batch is a count-limited batch,
+	// so the model is told BGeneric: what is exercised is the Kafka batch's side of the Batch interface
+	// (IsFull, GetPartitionKey used for routing, transactions map, payload order).
+	Kafka string `json:"kafka,omitempty"` // random | batch | transaction | transaction-constant | tablename
 }
 
 func (k Kind) gallina() string {
@@ -82,6 +89,10 @@ func (k Kind) gallina() string {
 }
 
 func (k Kind) factory() transport.BatchFactory {
+	if k.Kafka != "" {
+		return kafka.NewBatchFactory(map[string]interface{}{kafka.ConfVarKafkaTopic: "t", kafka.ConfVarKafkaMaxMessageBytes: 1 << 30,
+			kafka.ConfVarKafkaBatchSize: k.Generic, kafka.ConfVarKafkaPartitionMethod: k.Kafka})
+	}
 	if k.Kinesis == "walstart" {
 		return kfactory{kutils.KINESIS_PART_WALSTART}
 	}
@@ -122,6 +133,11 @@ func payloadRecs(b transport.Batch) []Rec {
 	case []*kinesis.PutRecordsRequestEntry:
 		for _, r := range p {
 			out = append(out, Rec{ID: idOf(r.Data), PK: *r.PartitionKey, Len: len(r.Data)})
+		}
+	case []*sarama.ProducerMessage:
+		for _, m := range p {
+			v, _ := m.Value.(sarama.ByteEncoder)
+			out = append(out, Rec{ID: idOf([]byte(v)), Len: len(v)})
 		}
 	}
 	return out
